@@ -99,6 +99,26 @@ def hostile(ctx, lw, sim, c, rng, log):
             bad, outputs = a, [b2]
     else:
         bad = good if rng.random() < 0.5 else [good]
+    # placement of the offending state: alone, inside a list of otherwise valid inputs, or among the outputs
+    if kind in ("wrong_length", "negative", "noninteger", "bool") and outputs is None and k > 0 \
+            and not isinstance(bad, list):
+        place = rng.random()
+        nph_ok = bad.n_photons if kind in ("wrong_length",) else None
+        try:
+            tot = sum(x for x in bad.s if isinstance(x, (int, float)) and not isinstance(x, bool))
+        except Exception:  # noqa: BLE001
+            tot = 0
+        tot = int(tot) if tot == int(tot) and tot >= 0 else 1
+        goods = [State(random_state(rng, k, tot)) for _ in range(int(rng.integers(1, 3)))]
+        if place < 0.25:
+            bad = goods + [bad]
+            ctx.bucket("reject_placement_last_of_list")
+        elif place < 0.5:
+            bad = [bad] + goods
+            ctx.bucket("reject_placement_first_of_list")
+        elif place < 0.7:
+            outputs, bad = goods + [bad], goods[0]
+            ctx.bucket("reject_placement_in_outputs")
     ctx.bucket("reject_" + kind)
     before = circmon.STATS["sim_calls"]
     try:
